@@ -21,6 +21,8 @@ def run_one(patch):
         r = subprocess.run(["patch", "-p1", "-s", "-i", patch], cwd=d, stdout=subprocess.PIPE, stderr=subprocess.STDOUT, text=True)
         if r.returncode != 0:
             return {"patch": os.path.relpath(patch, V), "applied": False}
+        # fresh mtimes: the target dir is shared between scratch copies and cargo's freshness test is mtime-based
+        subprocess.run(["find", d, "-name", "*.rs", "-exec", "touch", "{}", "+"], check=True)
         env = dict(os.environ, CARGO_TARGET_DIR=t, CARGO_NET_OFFLINE="true")
         r = subprocess.run(["cargo", "test", "--workspace", "--offline", "--no-fail-fast"], cwd=d, env=env, stdout=subprocess.PIPE, stderr=subprocess.STDOUT, text=True)
         passed = sum(int(x) for x in re.findall(r"test result: \w+\. (\d+) passed", r.stdout))
